@@ -34,7 +34,10 @@ Ret == /\ IsEvent("c13.ret")
               idOf(i) == decs[i].msg.id
               nq == Len(c.ids)
               \* every query answered exactly once (IDs are unique per connection)
-              once == \A j \in 1..nq : Cardinality({i \in 1..Len(decs) : idOf(i) = c.ids[j]}) = 1
+              \* (mode "stall": the client paused inside a frame for longer than the idle time-out; the proxy may
+              \* have closed the connection, so responses may be missing - but none is doubled or made up)
+              once == \A j \in 1..nq : LET k == Cardinality({i \in 1..Len(decs) : idOf(i) = c.ids[j]})
+                                        IN IF c.mode = "stall" THEN k <= 1 ELSE k = 1
               noExtra == \A i \in 1..Len(decs) : \E j \in 1..nq : idOf(i) = c.ids[j]
               \* the response to query j echoes its question (interleaved octets would not)
               echo == \A i \in 1..Len(decs) : \A j \in 1..nq :
